@@ -276,3 +276,12 @@ const pfcpPkg = modPath + "/pfcpiface"
 func (w *World) isRepoFunc(f *ssa.Function) bool {
 	return f != nil && f.Blocks != nil && f.Pkg != nil && strings.HasPrefix(f.Pkg.Pkg.Path(), modPath)
 }
+
+// allFuncs: every repo function (methods and closures included).
+func (w *World) allFuncs() map[*ssa.Function]bool {
+	out := map[*ssa.Function]bool{}
+	for _, f := range w.byName {
+		out[f] = true
+	}
+	return out
+}
